@@ -307,18 +307,22 @@ func checkC15(e *Env) {
 	})
 	errKinds.Add("calls_inside_histories", histCalls)
 
+	// the concurrent flavour of this monitor (C12 is the full treatment)
+	concCalls := e.concurrentSmoke(drv, "C15", e.smokePool("C15", "chk"), e.pick(2, 12), e.pick(300, 1500))
+
 	if e.Violations() == 0 && (byDefect.Get("count") == 0 || byDefect.Get("checksum") == 0 || byDefect.Get("unknown") == 0) {
 		fatalInconclusive("C15: a defect class was not explored")
 	}
 	e.WriteEvidence("exploration", map[string]any{
-		"evaluations":                 stats.Ops,
-		"distinct_nontrivial":         dist.Len(),
-		"rule":                        "cases are sentences built by the parent with exactly one class of defect, for all ten languages and all five word counts: (count) list words only, 0..40 tokens outside {12,15,18,21,24}; (checksum) valid count, list words only, the reference decoder reports a bad checksum — every wrong final word of sampled prefixes incl. zero-leading ones, plus substitutions/transpositions; (unknown) acceptable count with one or two tokens that are not in the list — unique markers at every position, words of another list, affixed/case-damaged/glued words, NUL inside; weaker classes (empty token, tab separated, leading space, count+unknown) are only required to be errors; the child reports errors.Is against the three sentinels and the message; non-trivial = every defective sentence; distinct by (sentence, language)",
-		"samples":                     smp.List(),
-		"sentences_by_defect":         byDefect.Map(),
-		"defect_to_error_class":       errKinds.Map(),
-		"defect_language_count_cells": len(matrix.Map()),
-		"children":                    stats.Children,
+		"evaluations":                      stats.Ops,
+		"distinct_nontrivial":              dist.Len(),
+		"calls_repeated_under_concurrency": concCalls,
+		"rule":                             "cases are sentences built by the parent with exactly one class of defect, for all ten languages and all five word counts: (count) list words only, 0..40 tokens outside {12,15,18,21,24}; (checksum) valid count, list words only, the reference decoder reports a bad checksum — every wrong final word of sampled prefixes incl. zero-leading ones, plus substitutions/transpositions; (unknown) acceptable count with one or two tokens that are not in the list — unique markers at every position, words of another list, affixed/case-damaged/glued words, NUL inside; weaker classes (empty token, tab separated, leading space, count+unknown) are only required to be errors; the child reports errors.Is against the three sentinels and the message; non-trivial = every defective sentence; distinct by (sentence, language)",
+		"samples":                          smp.List(),
+		"sentences_by_defect":              byDefect.Map(),
+		"defect_to_error_class":            errKinds.Map(),
+		"defect_language_count_cells":      len(matrix.Map()),
+		"children":                         stats.Children,
 	}, []string{
 		"errors.Is evaluated in the child against the package's own exported sentinels",
 		"golden lists; reference decoder for classifying checksum-only defects",
